@@ -102,6 +102,7 @@ func checkC05(c *Ctx) {
 	checkRangeFilters(c, "C05.R1.range-filters", ev, reviewedRangeFilters, 25)
 	checkSerializerReceivers(c, ev)
 	checkMemberCopies(c, ev)
+	checkDecodeTargets(c, ev)
 	checkRequiredExact(c, gen)
 	checkDecoders(c, ev, gen)
 	checkReceiverAssignmentOrder(c, ev)
@@ -516,5 +517,36 @@ func checkRequiredExact(c *Ctx, gen *packages.Package) {
 	}
 	if n == 0 {
 		c.Unk(rule, "generator › uses of Schema.Required", "", "no range over a Required list found")
+	}
+}
+
+
+// checkDecodeTargets: json.Unmarshal needs a non-nil pointer: the additional-properties decoders
+// declare `var toadd T` and must pass its address whatever T is (for a pointer T the variable
+// itself is a nil pointer).
+func checkDecodeTargets(c *Ctx, ev *tmpl.Evaluator) {
+	rule := "C05.R2.decode-targets"
+	c.Rule(rule, "every json.Unmarshal(v, X) of the serializer templates is passed the address of its target unconditionally", 2)
+	rx := regexp.MustCompile(`json\.Unmarshal\(\w+, ([^)]*)\)`)
+	n := 0
+	for _, tn := range ev.F.Names() {
+		l := linearOf(c, ev, tn)
+		if l == nil || !strings.Contains(l.Tree.Asset, "serializer") {
+			continue
+		}
+		for k, oc := range l.Find(rx) {
+			arg := oc.Match[1]
+			if !regexp.MustCompile(`^&?\w+$`).MatchString(strings.TrimSpace(arg)) {
+				continue // composite targets (&struct fields …) are not this rule's shape
+			}
+			n++
+			amp := strings.Index(l.Text[oc.Start:oc.End], "&")
+			ok := strings.HasPrefix(strings.TrimSpace(arg), "&") && amp >= 0 && len(l.GuardsAt(oc.Start+amp)) == len(l.GuardsAt(oc.Start))
+			c.Check(ok, rule, fmt.Sprintf("%s › %s › json.Unmarshal #%d", l.Tree.Asset, tn, k+1), l.Tree.PosStr(oc.Pos), "target passed by address in every instantiation",
+				"the `&` in front of the decoding target "+strings.TrimSpace(arg)+" is missing or conditional: for a pointer-typed target the variable is a nil pointer and json.Unmarshal fails with 'Unmarshal(nil *T)' on every document that has such a member")
+		}
+	}
+	if n == 0 {
+		c.Unk(rule, "serializer templates › json.Unmarshal calls", "", "no call with a simple target found")
 	}
 }
